@@ -31,13 +31,14 @@ CFG = {
                     "chain (guaranteed by nonces; checked on every generated tree)",
                     "modelled histories stay below 128 blocks (triesInMemory): trie garbage collection during import is not "
                     "modelled (state availability changes only at Stop+reopen); longer chains are judged directly on the real code",
-                    "SetHead is covered by the theorems when the block it lands on still has its state (always on an archive node); "
-                    "otherwise the property FAILS (known finding sethead-stateless-leaves-index, Lean witness setHead_stateless_witness)",
+                    "SetHead(n) is covered for ANY n: when the block it lands on has lost its state the block head deliberately stays "
+                    "on a lower block with state, below the header head; the invariant GInv (index and lookups describe the chain of "
+                    "the HEADER head, block/fast head on it) is kept by every operation (ginv_setHead, ginv_reachable) and the statement "
+                    "is then read with the header head as 'the head' (SpecLag; equal to SpecInv when the heads coincide). Before 3f14ce8 "
+                    "imports after such a rewind broke the property (former finding sethead-stateless-leaves-index, fixed)",
                     "mixed histories (InsertChain and InsertHeaderChain on one chain) are in scope: judged with the header head as 'the "
-                    "head' for the number index and the block head for bodies/receipts/lookups; the index clauses FAIL there on the "
-                    "unchanged tree (known finding mixed-import-stale-numbers-above-head, Lean witnesses; candidate fix in "
-                    ".work/patches/C03-insert-clears-numbers-above.diff); inv_reachable_mixed_partial covers full imports followed by "
-                    "header imports",
+                    "head' for the number index and the block head for bodies/receipts/lookups; inv_reachable_mixed proves the index "
+                    "clauses for every mixed history (former finding mixed-import-stale-numbers-above-head, fixed by 3f14ce8)",
                     "after a rewind has orphaned side-chain blocks reorg may return 'invalid new chain': inv_reachable covers the "
                     "histories in which it does not (Admissible); proved impossible without a rewind",
                     "distinct blocks have distinct state roots (every generated block has its own coinbase)"],
@@ -48,7 +49,8 @@ CFG = {
 META = {
     "technique": "Lean 4 proof (invariant of the chain-database model preserved by import, reorganisation and rewind, by induction over "
                  "arbitrary operation histories) tied to core/ by differential correspondence on random histories",
-    "text": "Theorems inv_init, inv_insertBlock, inv_insertChain, inv_setHead, inv_reopen, inv_reachable, inv_reachable_imports, spec_of_inv "
+    "text": "Theorems inv_init, inv_insertBlock, inv_insertChain, inv_setHead, inv_reopen, inv_reachable, inv_reachable_imports, spec_of_inv, "
+            "ginv_insertChain, ginv_setHead (no premise), ginv_reopen, ginv_reachable, spec_lag_reachable, inv_reachable_mixed, mixed_never_fails "
             "(and hinv_writeHeader, hinv_insertHeaderChain, hinv_setHead, hspec_reachable for header-first imports — unconditional since 2ee9efd; insertChain_never_panics, writeHeader_refusal_keeps_index) "
             "show that in the Lean model of BlockChain/HeaderChain the number index is exactly the ancestry of the head, nothing is indexed "
             "above it, canonical blocks are retrievable and a lookup resolves iff the transaction is canonical, after every admissible "
